@@ -15,6 +15,9 @@ CHECKS = {
  "C19": ("fault_enumeration", "per generated document every byte position of the output is enumerated as a failure point for three fault kinds (persistent error, persistent zero-length write, transient error) plus generated short-write/EINTR schedules; documents are sampled, positions are exhaustive",
          "trusted: the fault-injecting Write sinks of the harness, STRICT-R and CANON for the validity of later saves",
          "fault injection through the public Write parameter, exhaustive over byte positions; proptest-generated documents and chunking schedules"),
+ "C09": ("exploration", "reference encoders (own LZW, ASCII85, PNG predictors, stored deflate) generate the inputs over chains of 1-3 filters and all parameter forms; lopdf's decoders must return the original bytes; exhaustive sweeps of all 2^24 Paeth triples and all final ASCII85 groups; model-based op sequences for the compression laws",
+         "trusted: REF-FILT encoders (unit-tested against own decoders, weezl and flate2), flate2 as deflate primitive",
+         "property-based testing (proptest) against reference encoders, exhaustive enumeration of small spaces, model-based op sequences"),
 }
 NA = {}
 def main():
